@@ -39,7 +39,16 @@ RULE = (
     "refuse exactly the calls the real code refuses, for the same reason, and the operations of a refused call are "
     "compared with fssizedrefused / fslistrefused), and assign_confidence(sqlite_path=...) is run next to an "
     "interrupted text run and stale files: database rows dirty vs clean, no file of the run left, life cycle and "
-    "listing vs fssql / fslistsql"
+    "listing vs fssql / fslistsql. Third pass (leftovers next to the INPUT): an earlier mokapot.mokapot.main over "
+    "1-2 tiny PIN files (ragged / valid / with a DefaultDirection line, optionally next to a junk <pin>.tsv) is cut "
+    "at every file operation of its verify step (the two read-opens, the truncating open of <pin>.tsv, every "
+    "f_tsv.write call, shutil.move, and after the whole loop; quick samples 14 of the cut points of a case, thorough "
+    "takes all) and the observed run's verify step runs on what is left: the input directory the earlier run leaves "
+    "vs the Lean prediction fsclicrash, the operations performed vs fsclimicro, the input directory after the "
+    "observed run vs the conversion of each PIN alone (converter called directly) and vs fsclicrashthen; in the "
+    "whole-CLI cases the dirty input directory is in 60 % of the cases produced by such a cut earlier run over the "
+    "same files (so some inputs are already converted, one <pin>.tsv is partial) and the traced life cycle is "
+    "compared with fsclimain fed with the branches read off the files as they are (needsOf)"
 )
 
 
@@ -1156,6 +1165,245 @@ def canon_model_file(name, content):
         return content
 
 
+
+# ---------------------------------------------------------------------------------------------------------------
+# third pass: earlier command line runs that died inside the verify step (leftovers NEXT TO THE INPUT)
+# ---------------------------------------------------------------------------------------------------------------
+@contextlib.contextmanager
+def cli_fault(k, counter, stop_after_verify=False):
+    """the file operations of the CLI's verify step, counted in the order of the Lean operation list `cliMicro`:
+    open(pin, 'r') [is_valid_tsv], open(pin, 'r') [converter input], open(<pin>.tsv, 'w'), every f_tsv.write call,
+    shutil.move.  The k-th one raises *before* it is performed (so the directory is the one after k-1 operations);
+    `stop_after_verify` makes `read_pin` -- the first thing after the verify loop -- raise (k = None: the verify step
+    completes and the analysis is cut off)"""
+    import builtins
+    import types
+
+    mk = P.mod("mokapot.mokapot")
+
+    def guard(label):
+        counter["n"] += 1
+        counter["ops"].append(label)
+        if k is not None and counter["n"] == k:
+            raise Crash(f"injected failure at CLI file operation {k}: {label}")
+
+    class Writer:
+        def __init__(self, f, name):
+            self.f, self.name = f, name
+
+        def __enter__(self):
+            self.f.__enter__()
+            return self
+
+        def __exit__(self, *a):
+            return self.f.__exit__(*a)
+
+        def write(self, text):
+            guard(f"write:{self.name}")
+            return self.f.write(text)
+
+    def traced_open(file, mode="r", *a, **kw):
+        name = Path(str(file)).name
+        m = str(mode)
+        if "w" in m or "a" in m or "x" in m or "+" in m:
+            guard(("append-open:" if "a" in m else "trunc:") + name)
+            return Writer(builtins.open(file, mode, *a, **kw), name)
+        guard(f"read:{name}")
+        return builtins.open(file, mode, *a, **kw)
+
+    def traced_move(src, dst, *a, **kw):
+        guard(f"move:{Path(str(src)).name}->{Path(str(dst)).name}")
+        return shutil.move(src, dst, *a, **kw)
+
+    def stopped_read_pin(*a, **kw):
+        raise Crash("cut off after the verify step")
+    proxy = types.SimpleNamespace(**{n: getattr(shutil, n) for n in dir(shutil) if not n.startswith("__")})
+    proxy.move = traced_move
+    saved_shutil, saved_read_pin = mk.shutil, mk.read_pin
+    try:
+        mk.open = traced_open
+        mk.shutil = proxy
+        if stop_after_verify:
+            mk.read_pin = stopped_read_pin
+        yield counter
+    finally:
+        mk.shutil, mk.read_pin = saved_shutil, saved_read_pin
+        if "open" in mk.__dict__:
+            del mk.__dict__["open"]
+
+
+def converter_writes(text):
+    """the chunks `pin_to_valid_tsv` hands to `f_out.write`, one per call (the real converter, a recording sink)"""
+    from mokapot.parsers.pin_to_tsv import pin_to_valid_tsv
+
+    chunks = []
+
+    class Sink:
+        def write(self, t):
+            chunks.append(t)
+    pin_to_valid_tsv(f_in=io.StringIO(text), f_out=Sink())
+    return chunks
+
+
+def tiny_pin(rng, tag, ragged):
+    rows = ["SpecId\tLabel\tScanNr\tExpMass\tfeat\tPeptide\tProteins"]
+    if ragged and rng.random() < 0.4:
+        rows.append("DefaultDirection\t-\t-\t-\t1\t-\t-")       # dropped by the converter: makes the file invalid too
+    for i in range(rng.choice([3, 4, 6, 9])):
+        np_ = rng.randint(2, 3) if (ragged and i % 2 == 0) else 1
+        prots = "\t".join(f"P{tag}{j}" for j in range(np_))
+        rows.append(f"s{tag}{i}\t{1 if i % 2 else -1}\t{i}\t{100 + i}\t{i * 3}\tPEP{i}K\t{prots}")
+    return "\n".join(rows) + "\n"
+
+
+JUNK_TSV = "STALE LEFTOVER OF AN INTERRUPTED RUN\n"
+JUNK_TOKEN = 666
+
+
+def cli_crash_case(chk, rng, max_points=None):
+    """An earlier `mokapot.mokapot.main` over 1-2 tiny PIN files is cut at EVERY file operation of its verify step
+    (between any two write calls of the conversion, before the move, after it, after the whole loop); then the
+    observed run's verify step runs on what is left.  Compared: (a) the input directory the earlier run leaves vs the
+    Lean prediction `fsclicrash` (which file is still the user's, which already converted, how many lines of
+    <pin>.tsv exist), (b) the operations performed vs `fsclimicro`, (c) the input directory after the observed run vs
+    the independent oracle (conversion of that PIN alone, computed by calling the converter; no <pin>.tsv of a
+    converted file; stale files of other names untouched) and vs `fsclicrashthen`"""
+    mk = P.mod("mokapot.mokapot")
+    nf = rng.choice([1, 2, 2])
+    ragged = [rng.random() < 0.7 for _ in range(nf)]
+    if not any(ragged):
+        ragged[rng.randrange(nf)] = True
+    stems = ["runA", "runB"][:nf]
+    texts = [tiny_pin(rng, "ab"[j], ragged[j]) for j in range(nf)]
+    chunks = [converter_writes(texts[j]) if ragged[j] else [] for j in range(nf)]
+    conv = ["".join(c) for c in chunks]
+    expected = [conv[j] if ragged[j] else texts[j] for j in range(nf)]
+    junk = [rng.random() < 0.5 for _ in range(nf)]            # a junk <pin>.tsv is there before the earlier run
+    files_arg = [[not ragged[j], len(chunks[j])] for j in range(nf)]
+    extra_arg = [[Atom("pintsv"), j, JUNK_TOKEN] for j in range(nf) if junk[j]]
+    total = sum((len(chunks[j]) + 4) if ragged[j] else 1 for j in range(nf))
+
+    def tokens(j, kind, text):
+        if text is None:
+            return None
+        if kind == "pin":
+            if text == texts[j]:
+                return (2 * j + (10 if not ragged[j] else 11), len(chunks[j]))
+        if text == JUNK_TSV:
+            return (JUNK_TOKEN,)
+        if kind != "pin" or ragged[j]:       # (a PIN holding a *prefix* of its conversion: only a changed tree does that)
+            for i in range(len(chunks[j]), -1, -1):
+                if text == "".join(chunks[j][:i]):
+                    return tuple(100 + 2 * t for t in range(i))
+        return ("unknown", text[:60])
+
+    def real_dir(ind):
+        out = {}
+        for j in range(nf):
+            for kind, f in (("pin", ind / f"{stems[j]}.pin"), ("pintsv", ind / f"{stems[j]}.pin.tsv")):
+                t = tokens(j, kind, f.read_text() if f.exists() else None)
+                if t is not None:
+                    out[(kind, j)] = t
+        return out
+
+    def model_dir(resp):
+        return {(it[0], int(it[1])): tuple(int(t) for t in it[2]) for it in dec(resp)}
+
+    def run_cli(ind, dest, k, stop):
+        ctr = {"n": 0, "ops": []}
+        err = None
+        try:
+            with contextlib.redirect_stdout(io.StringIO()), contextlib.redirect_stderr(io.StringIO()), \
+                    cli_fault(k, ctr, stop_after_verify=stop):
+                mk.main([str(ind / f"{s}.pin") for s in stems] + ["--dest_dir", str(dest), "--max_iter", "1",
+                                                                    "--folds", "2"])
+        except Crash as e:
+            err = str(e)
+        except BaseException as e:      # noqa: BLE001
+            err = f"{type(e).__name__}: {e}"[:160]
+        return ctr, err
+
+    points = list(range(1, total + 2))          # total+1 = the whole verify loop completes, the analysis is cut off
+    if max_points and len(points) > max_points:
+        keep = set(rng.sample(points[1:-1], max_points - 2)) | {points[0], points[-1]}
+        points = [p_ for p_ in points if p_ in keep]
+    resps = common.driver_batch(
+        [req("fsclimicro", files_arg)] +
+        [r for k in points for r in (req("fsclicrash", files_arg, k - 1, extra_arg),
+                                     req("fsclicrashthen", files_arg, k - 1, extra_arg),
+                                     req("fsclicrashprobe", files_arg, k - 1, extra_arg))])
+    micro = [(it[0], it[1], int(it[2])) for it in dec(resps[0])]
+    for idx, k in enumerate(points):
+        with P.workdir() as root:
+            ind = root / "in"; ind.mkdir()
+            for j in range(nf):
+                (ind / f"{stems[j]}.pin").write_text(texts[j])
+                if junk[j]:
+                    (ind / f"{stems[j]}.pin.tsv").write_text(JUNK_TSV)
+            ctr, err = run_cli(ind, root / "out", k if k <= total else None, stop=True)
+            debris = real_dir(ind)
+            chk.case(None, ("cli-crash", tuple(texts), tuple(junk), k),
+                     sample=dict(cli_crash=True, nf=nf, ragged=ragged, junk=junk, crash_point=k, of=total))
+            chk.count("cli-crash", f"files={nf} ragged={sum(ragged)} junk_tsv={sum(junk)}")
+            chk.count("cli-crash-point", "inside a conversion" if any(v and kk == "pintsv" and v != (JUNK_TOKEN,)
+                                                                      for (kk, _), v in debris.items())
+                      else ("after the verify step" if k > total else "between files / before the first write"))
+            info = dict(nf=nf, ragged=ragged, junk_tsv=junk, texts=texts, crash_point=k, operations=total,
+                        earlier_run=err)
+            if err is None or not isinstance(err, str) or "injected" not in err and "cut off" not in err:
+                chk.reject("cli-crash-earlier-run-ended-otherwise"); continue
+            # (b) the operations performed up to the cut vs the Lean operation list
+            real_ops = []
+            for label in ctr["ops"]:
+                op, name = label.split(":", 1)
+                if op == "move":
+                    real_ops.append(("move", "pintsv", stems.index(name.split(".pin")[0])))
+                else:
+                    real_ops.append((op, "pintsv" if name.endswith(".tsv") else "pin", stems.index(name.split(".pin")[0])))
+            want_ops = [(o if o != "append" else "write", kd, j) for o, kd, j in micro][:len(real_ops)]
+            broken = None           # a disagreement with the model is reported -- after the oracle (c) has had its say
+            if real_ops != want_ops:
+                broken = ("fsclimicro", dict(impl=real_ops[:40], model=want_ops[:40], **info))
+            # (a) what the earlier run leaves
+            m_debris = model_dir(resps[1 + 3 * idx])
+            if broken is None and debris != m_debris:
+                broken = ("fsclicrash", dict(impl={str(a): b for a, b in debris.items()},
+                                             model={str(a): b for a, b in m_debris.items()}, **info))
+            # (c) the observed run's verify step on it
+            ctr2, err2 = run_cli(ind, root / "out", None, stop=True)
+            after = real_dir(ind)
+            clause = None
+            for j in range(nf):
+                got = (ind / f"{stems[j]}.pin").read_text() if (ind / f"{stems[j]}.pin").exists() else None
+                if got != expected[j]:
+                    clause = (f"after an earlier run cut at file operation {k} of {total} the user's PIN {stems[j]}.pin "
+                              "was replaced by content that is not the conversion of that PIN alone")
+                    info.update(got="<absent>" if got is None else got[:300], expected=expected[j][:300])
+                    break
+                if ragged[j] and (ind / f"{stems[j]}.pin.tsv").exists():
+                    clause = f"{stems[j]}.pin.tsv remains after the verify step (earlier run cut at operation {k})"
+                    break
+            if (err2 is None or "cut off" not in err2) and not clause:
+                if broken:
+                    chk.corr_break(*broken)
+                    return
+                chk.reject("cli-crash-observed-verify-failed")
+                continue
+            if clause:
+                explained = after == model_dir(resps[3 + 3 * idx])
+                chk.spec_violation("input-mixed-with-leftover" if "replaced" in clause else "cli-temp-left",
+                                   dict(clause=clause, variant_that_trusts_an_existing_tsv_explains_it=explained, **info))
+                return
+            if broken:
+                chk.corr_break(*broken)
+                return
+            m_after = model_dir(resps[2 + 3 * idx])
+            if after != m_after:
+                chk.corr_break("fsclicrashthen", dict(impl={str(a): b for a, b in after.items()},
+                                                      model={str(a): b for a, b in m_after.items()}, **info))
+                return
+
+
 CLI_SHAPES = [(2, False), (1, False), (2, True)]     # (number of PIN files, --aggregate): every run covers all three
 
 
@@ -1172,7 +1420,11 @@ def cli_main_case(chk, rng, shape=None):
         nf, aggregate = shape
     opts = dict(save_models=rng.random() < 0.7, aggregate=aggregate,
                 file_root=rng.choice([None, None, "fr"]), keep_decoys=rng.random() < 0.5,
-                skip_rollup=rng.random() < 0.25, cconf=rng.choice([40, 90, 1000]))
+                skip_rollup=rng.random() < 0.25, cconf=rng.choice([40, 90, 1000]),
+                # third pass: the dirty input directory is what an earlier command line run over the same files
+                # leaves when it is cut at a file operation of its verify step (fraction of the operations; 1.0 = the
+                # verify loop completes and the analysis is cut off) -- instead of a hand-made junk <pin>.tsv
+                crashed_cli=rng.random() < 0.6, crash_frac=rng.choice([rng.random(), rng.random(), 1.0]))
     ragged = [rng.random() < 0.6 for _ in range(nf)]
     seeds = [rng.randrange(1 << 30) for _ in range(nf)]
     stems = ["runA", "runB"][:nf]
@@ -1198,10 +1450,25 @@ def cli_main_case(chk, rng, shape=None):
         pins = []
         for j in range(nf):
             (ind / f"{stems[j]}.pin").write_text(texts[j]); pins.append(ind / f"{stems[j]}.pin")
+        debris = None
         if dirtied:
             dest.mkdir()
-            for j in range(nf):
-                (ind / f"{stems[j]}.pin.tsv").write_text("STALE LEFTOVER OF AN INTERRUPTED RUN\n")
+            if opts["crashed_cli"] and any(ragged):
+                total = sum((len(converter_writes(texts[j])) + 4) if ragged[j] else 1 for j in range(nf))
+                k = min(total + 1, 1 + int(opts["crash_frac"] * (total + 1)))
+                c0 = {"n": 0, "ops": []}
+                try:
+                    with contextlib.redirect_stdout(io.StringIO()), contextlib.redirect_stderr(io.StringIO()), \
+                            cli_fault(k if k <= total else None, c0, stop_after_verify=True):
+                        mk.main([str(x) for x in pins] + ["--dest_dir", str(dest)])
+                    debris = "earlier run completed?"
+                except Crash as e:
+                    debris = f"{e} (operation {k} of {total})"
+                except BaseException as e:       # noqa: BLE001
+                    debris = f"earlier run failed otherwise: {type(e).__name__}"
+            else:
+                for j in range(nf):
+                    (ind / f"{stems[j]}.pin.tsv").write_text("STALE LEFTOVER OF AN INTERRUPTED RUN\n")
             for pf in dict.fromkeys(prefixes):
                 pre = root_pre + (f"{pf}." if pf else "")
                 for nm in [f"{pre}scores_metadata_{i}.pin" for i in (0, 1, 2, 7)] + \
@@ -1219,6 +1486,8 @@ def cli_main_case(chk, rng, shape=None):
         args += ["--skip_rollup"] if opts["skip_rollup"] else []
         args += ["--file_root", opts["file_root"]] if opts["file_root"] else []
         before = snapshot(dest) if dest.exists() else {}
+        # which files the verify step has to convert *now* (an earlier run may have converted some already)
+        needs = [ragged[j] and pins[j].read_text() != expected_inputs[j] for j in range(nf)]
         ctr = {"n": 0, "ops": []}
         err = None
         try:
@@ -1229,7 +1498,7 @@ def cli_main_case(chk, rng, shape=None):
         except BaseException as e:           # noqa: BLE001  (SystemExit from the argument parser included)
             err = f"{type(e).__name__}: {e}"[:200]
         return dict(dest=snapshot(dest) if dest.exists() else {}, ind=snapshot(ind), before=before, ops=ctr["ops"],
-                    err=err, rows=[t.count("\n") - 1 for t in texts])
+                    err=err, rows=[t.count("\n") - 1 for t in texts], needs=needs, debris=debris)
 
     with P.workdir() as root:
         clean = one("clean", root, False)
@@ -1238,7 +1507,11 @@ def cli_main_case(chk, rng, shape=None):
              sample=dict(cli_main=True, nf=nf, ragged=ragged, **{k: str(v) for k, v in opts.items()}))
     chk.count("cli-main", f"files={nf} ragged={sum(ragged)} aggregate={opts['aggregate']} models={opts['save_models']} "
                           f"root={bool(opts['file_root'])} rollup={not opts['skip_rollup']}")
-    info = dict(nf=nf, ragged=ragged, seeds=seeds, opts=opts)
+    info = dict(nf=nf, ragged=ragged, seeds=seeds, opts=opts, input_dir_debris=dirty["debris"])
+    chk.count("cli-main-input-dir", "junk <pin>.tsv" if dirty["debris"] is None else
+              ("earlier run cut after its verify step" if "cut off" in dirty["debris"] else
+               "earlier run cut inside its verify step; files already converted: %d" %
+               sum(r and not n for r, n in zip(ragged, dirty["needs"]))))
     if clean["err"]:
         chk.reject("cli-main-fails-in-clean-dir:" + clean["err"].split(":")[0])
         if dirty["err"] is None:
@@ -1297,7 +1570,7 @@ def cli_main_case(chk, rng, shape=None):
         return canon_name_x(fname, ".pin", levels, ids, root=root_pre)
     for which, res in (("clean", clean), ("dirty", dirty)):
         real = life_cycles_real(res["ops"], canon)
-        resp = common.driver_batch([req("fsclimain", True, ragged, False, len(levels), opts["keep_decoys"],
+        resp = common.driver_batch([req("fsclimain", True, res["needs"], False, len(levels), opts["keep_decoys"],
                                         [[i, k] for i, k in zip(pids, ks)], nm_models)])[0]
         model = life_cycles_model(resp)
         if real != model:
@@ -1316,6 +1589,10 @@ def search(chk):
     for _ in range(5):
         cli_case(chk, chk.rng)
     for _ in range(3):
+        cli_crash_case(chk, chk.rng)
+        if chk.spec_violations:
+            return
+    for _ in range(3):
         rollup_trace_case(chk, chk.rng)
         if chk.spec_violations:
             return
@@ -1329,7 +1606,8 @@ def search(chk):
 
 def main(chk, args):
     build = common.build_and_audit("C09", extra_targets=["MokapotVerif.Mutants.FsRun", "MokapotVerif.Mutants.FsRunExt",
-                                                         "MokapotVerif.Mutants.FsRunSized"])
+                                                         "MokapotVerif.Mutants.FsRunSized",
+                                                         "MokapotVerif.Mutants.FsRunCrash"])
     if not build.driver_ok:
         chk.finish(build, RULE)
     model_listing(chk, chk.rng)
@@ -1345,6 +1623,10 @@ def main(chk, args):
             run_case(chk, c, enumerate_all=True)
     for _ in range(3 if chk.tier == "quick" else 20):
         cli_case(chk, chk.rng)
+    for _ in range(chk.scale(2 if chk.tier == "quick" else 12)):
+        cli_crash_case(chk, chk.rng, max_points=14 if chk.tier == "quick" else None)
+        if chk.spec_violations:
+            break
     for _ in range(chk.scale(5 if chk.tier == "quick" else 20)):
         rollup_history_case(chk, chk.rng)
     for _ in range(chk.scale(4 if chk.tier == "quick" else 16)):
@@ -1367,6 +1649,11 @@ def main(chk, args):
         "INSERT on existing tables); it is a declared input of the run like result files under "
         "append_to_output_file=True; journal files and rows left in it by an interrupted database run are not "
         "modelled; with a database the harness drives single collections only",
+        "third pass: the theorems about interrupted command line runs (Props/C09Crash.lean) take the rename of "
+        "<pin>.tsv over the PIN as atomic (same directory, os.rename; the copy-then-delete variant is refuted in "
+        "Mutants/FsRunCrash.lean) and the converter's output as accepted by is_valid_tsv (C19_output_valid); the "
+        "content of a stale or torn <pin>.tsv is universally quantified (C09_stale_tsv_content_irrelevant), so torn "
+        "writes of the temporary file are covered, torn writes of result files of the observed run itself are not",
     ]
     chk.finish(build, RULE, search=search, lc=lc,
                trusted_extra=["tools/gen_repo.py (AST walk -> Generated/FileOps.lean)", "POSIX file semantics"])
